@@ -230,6 +230,18 @@ class PyModel:
             ex.last_snapshot_kind = 'iterator'
             if d is not None and hasattr(d, 'snap'):
                 return d.snap(ex)
+            if d is not None and d.kind in ('zip', 'enumerate'):
+                parts = d.parts if d.kind == 'zip' else [getattr(d, 'inner', None)]
+                if all(p is not None and p.kind in ('seq', 'str', 'dictkeys', 'dictvalues', 'dictitems', 'range', 'reversed', 'pytuple') for p in parts):
+                    # tuples of elements of containers that hold plain data
+                    n = ex.fresh_int('itlen')
+                    ex.assume(n >= 0)
+                    for p in parts:
+                        if p.kind == 'seq':
+                            ex.assume(n <= ex.heap.llen(p.ref))
+                    arr = z3.Const(ex.fresh_name('tuples'), z3.ArraySort(I, Val))
+                    ex.note_array_elems(arr, 'pairs')
+                    return n, arr
             n = ex.fresh_int('itlen')
             ex.assume(n >= 0)
             arr = z3.Const(ex.fresh_name('items'), z3.ArraySort(I, Val))
@@ -563,7 +575,24 @@ class PyModel:
     ARITH = {'Add': '+', 'Sub': '-', 'Mult': '*', 'Div': '/', 'Pow': '**', 'BitOr': '|', 'Mod': '%',
              'FloorDiv': '//'}
 
+    BITWISE = {'BitXor': '^', 'BitAnd': '&', 'LShift': '<<', 'RShift': '>>', 'MatMult': '@'}
+
     def binop(self, ex, opname, a, b, inplace=False):
+        if opname in self.BITWISE:
+            a = ex.to_val(a)
+            b = ex.to_val(b)
+            op = self.BITWISE[opname]
+            intlike = lambda v: z3.Or(L.is_Int(v), L.is_Bool(v))
+            if op != '@' and ex.branch(z3.And(intlike(a), intlike(b)), 'bitwise-int'):
+                if op in ('<<', '>>'):
+                    ex.may_raise(['ValueError', 'OverflowError'], 'negative shift count')
+                r = L.IntV(L.UF('int_' + {'^': 'xor', '&': 'and', '<<': 'lshift', '>>': 'rshift'}[op], I, I, I)(self.num_value_int(a), self.num_value_int(b)))
+            elif ex.branch(z3.Or(L.is_Opaque(a), L.is_Opaque(b), L.is_Obj(a), L.is_Obj(b)), 'bitwise-opaque'):
+                r = self.stubs.unknown_call(ex, '%s-on-opaque' % op, [a, b])
+            else:
+                ex.raise_('TypeError', 'unsupported operand type(s) for %s' % op)
+            ex.event('prim', 'binop', op, a, b, inplace, r)
+            return r
         if opname not in self.ARITH:
             raise Unsupported('operator %s' % opname)
         a = ex.to_val(a)
